@@ -6,6 +6,7 @@ package main
 // Observables: accept/reject, whom the answer names, re-issued artefacts, Set-Cookie, DB digest.
 
 import (
+	"database/sql"
 	"encoding/json"
 	"fmt"
 	"io/ioutil"
@@ -191,7 +192,7 @@ func (env *verifEnv) c04Consumers() []*c04Consumer {
 		}
 		return out
 	}
-	storageCol := time.Now().Unix() + 100000
+	c04StorageCol = time.Now().Unix() + 100000
 	var cs []*c04Consumer
 	sessionDirect := func(name string, required int) *c04Consumer {
 		return &c04Consumer{name: name, kind: "session", run: func(raw string) (c04Obs, string) {
@@ -268,24 +269,69 @@ func (env *verifEnv) c04Consumers() []*c04Consumer {
 		}
 		return o, fmt.Sprintf("CCliSend (%d)%%Z %s", AuthTypeWebauthForCLI, coqStr("alice"))
 	}})
-	cs = append(cs, &c04Consumer{name: "storage", kind: "storage", run: func(raw string) (c04Obs, string) {
-		now := time.Now().Unix()
-		col := storageCol
-		if _, err := st.db.Exec("insert or replace into expiring_signed_user_data(username, type, jws_data, expiration_epoch, update_epoch) values(?,?,?,?,?)",
-			"alice", c04DataType, raw, col, now); err != nil {
-			panic(err)
-		}
-		o := begin()
-		found, data, err := st.GetSigned("alice", c04DataType)
-		end(&o)
-		o.ok = found && err == nil
-		o.data = data
-		if o.ok {
-			o.user, o.hasUser = "alice", true
-		}
-		st.db.Exec("delete from expiring_signed_user_data where username=? and type=?", "alice", c04DataType)
-		return o, fmt.Sprintf("CStorage %s (%d)%%Z", coqStr("alice"), col)
-	}})
+	// GetSigned through each arm of its select.  The presented record sits in alice's slot of the
+	// store that answers; the OTHER store's slot is empty or (every second call) holds a genuine,
+	// current record of alice, which must not change the verdict.
+	//   primary:    the primary answers
+	//   cache-slow: the primary does not answer within remoteDBQueryTimeout (0), the cache does
+	//   cache-dead: the primary fails at once (closed pool), the cache answers after the deadline
+	closedDB, err := sql.Open("sqlite3", filepath.Join(st.Config.Base.DataDirectory, profileDBFilename))
+	if err != nil {
+		panic(err)
+	}
+	closedDB.Close()
+	storageCalls := 0
+	storageVia := func(name, path string) *c04Consumer {
+		return &c04Consumer{name: name, kind: "storage", run: func(raw string) (c04Obs, string) {
+			now := time.Now().Unix()
+			col := c04StorageCol
+			answering, other := st.db, st.cacheDB
+			if path != "primary" {
+				answering, other = st.cacheDB, st.db
+			}
+			const ins = "insert or replace into expiring_signed_user_data(username, type, jws_data, expiration_epoch, update_epoch) values(?,?,?,?,?)"
+			if _, err := answering.Exec(ins, "alice", c04DataType, raw, col, now); err != nil {
+				panic(err)
+			}
+			otherTerm := "None"
+			storageCalls++
+			if storageCalls%2 == 0 && c04Decoy != "" {
+				if _, err := other.Exec(ins, "alice", c04DataType, c04Decoy, col, now); err != nil {
+					panic(err)
+				}
+				otherTerm = fmt.Sprintf("(Some {| r_col_exp := (%d)%%Z; r_jws := nth %d toks tok0 |})", col, c04DecoyIdx)
+			}
+			o := begin()
+			realDB, realTimeout := st.db, st.remoteDBQueryTimeout
+			switch path {
+			case "cache-slow":
+				st.remoteDBQueryTimeout = 0
+			case "cache-dead":
+				st.db = closedDB
+				st.remoteDBQueryTimeout = 15 * time.Millisecond
+			}
+			found, data, err := st.GetSigned("alice", c04DataType)
+			if path == "cache-slow" {
+				time.Sleep(15 * time.Millisecond) // let the timed-out reader of the primary finish
+			}
+			st.db, st.remoteDBQueryTimeout = realDB, realTimeout
+			end(&o)
+			o.ok = found && err == nil
+			o.data = data
+			if o.ok {
+				o.user, o.hasUser = "alice", true
+			}
+			for _, db := range []*sql.DB{st.db, st.cacheDB} {
+				db.Exec("delete from expiring_signed_user_data where username=? and type=?", "alice", c04DataType)
+			}
+			coqPath := "PPrimary"
+			if path != "primary" {
+				coqPath = "PCache"
+			}
+			return o, fmt.Sprintf("CStorage %s %s (%d)%%Z %s", coqPath, coqStr("alice"), col, otherTerm)
+		}}
+	}
+	cs = append(cs, storageVia("storage", "primary"), storageVia("storage-cache-slow", "cache-slow"), storageVia("storage-cache-dead", "cache-dead"))
 	cs = append(cs, &c04Consumer{name: "token", kind: "code", run: func(raw string) (c04Obs, string) {
 		req := verifNewRequest("POST", idpOpenIDCTokenPath, url.Values{"grant_type": {"authorization_code"}, "redirect_uri": {c04RedirectA}, "code": {raw}})
 		req.SetBasicAuth(url.QueryEscape(c04ClientA), url.QueryEscape(c04SecretA))
@@ -397,6 +443,10 @@ func (env *verifEnv) c04Defect(t *symTok, cons *c04Consumer, now int64) string {
 			return "audience"
 		}
 	}
+	// consumers that serve the artefact for a named user (the harness always asks for alice)
+	if (cons.kind == "storage" || cons.name == "clisend") && c04StrClaim(c, "sub") != "alice" {
+		return "subject"
+	}
 	return ""
 }
 
@@ -477,6 +527,14 @@ func (env *verifEnv) c04Mutations(kind string) []c04Mut {
 
 // ---------------------------------------------------------------- the test
 
+// the expiration column the storage consumers write, and the genuine record of alice they put
+// into the slot of the store that does NOT answer
+var (
+	c04StorageCol int64
+	c04Decoy      string
+	c04DecoyIdx   int
+)
+
 type c04Case struct {
 	tok      int
 	consumer string // Coq term
@@ -491,6 +549,12 @@ func TestVerif_C04(t *testing.T) {
 	rng := verifRand()
 	prod := env.c04Produce(t)
 	env.writeTokenConsts(t, prod)
+	// every copy into the cache is driven here: stop the background copier
+	select {
+	case env.state.dbDone <- struct{}{}:
+	case <-time.After(20 * time.Second):
+		t.Fatal("background copier did not stop")
+	}
 	consumers := env.c04Consumers()
 
 	var toks []*symTok
@@ -504,6 +568,7 @@ func TestVerif_C04(t *testing.T) {
 		return len(toks) - 1
 	}
 	var cases []c04Case
+	c04Decoy, c04DecoyIdx = prod.storage.raw, intern(prod.storage)
 
 	oracle := func(s *symTok, cons *c04Consumer, o c04Obs, label string) {
 		now := o.t0 / 1e9
@@ -623,44 +688,51 @@ func TestVerif_C04(t *testing.T) {
 		}
 	}
 
-	// ---- 4. storage: the signed expiry against the unsigned column (F14)
+	// ---- 4. storage, on every read path: the signed expiry against the unsigned column (F14), a
+	// fresh record under an expired column, and another user's genuine record moved into the row
 	{
-		var storage *c04Consumer
-		for _, c := range consumers {
-			if c.name == "storage" {
-				storage = c
-			}
-		}
 		st := env.state
 		now := time.Now().Unix()
-		// a record that expired a minute ago, written through the real path, then the column is extended by SQL
+		wipe := func() {
+			for _, db := range []*sql.DB{st.db, st.cacheDB} {
+				db.Exec("delete from expiring_signed_user_data where username=? and type=?", "alice", c04DataType)
+			}
+		}
+		// a record that expired a minute ago, written through the real path; the consumers then
+		// store it under a column that lies in the future
 		if err := st.UpsertSigned("alice", c04DataType, now-60, "argon2-hash-expired"); err != nil {
 			t.Fatal(err)
 		}
 		var jws string
 		st.db.QueryRow("select jws_data from expiring_signed_user_data where username=? and type=?", "alice", c04DataType).Scan(&jws)
-		s := newSymTok(jws, env.signerKeyID(), false, "storage:expired-record-column-extended")
+		expired := newSymTok(jws, env.signerKeyID(), false, "storage:expired-record-column-extended")
 		found0, _, _ := st.GetSigned("alice", c04DataType)
-		st.db.Exec("update expiring_signed_user_data set expiration_epoch=? where username=? and type=?", now+4000, "alice", c04DataType)
-		o := run(s, storage, "column-extended") // (re-inserts the same row with the extended column)
-		res.Extra["f14"] = map[string]interface{}{"served_before_extension": found0, "served_after_extension": o.ok, "data": o.data}
-		// column in the past, claim in the future: the column alone refuses
+		wipe()
+		// a fresh record (claim in the future) that the consumers store under a column in the past
 		if err := st.UpsertSigned("alice", c04DataType, now+5000, "argon2-hash-fresh"); err != nil {
 			t.Fatal(err)
 		}
 		st.db.QueryRow("select jws_data from expiring_signed_user_data where username=? and type=?", "alice", c04DataType).Scan(&jws)
-		st.db.Exec("update expiring_signed_user_data set expiration_epoch=? where username=? and type=?", now-10, "alice", c04DataType)
-		t0 := time.Now().UnixNano()
-		found, _, err := st.GetSigned("alice", c04DataType)
-		s2 := newSymTok(jws, env.signerKeyID(), false, "storage:fresh-record-column-expired")
-		cases = append(cases, c04Case{tok: intern(s2), consumer: fmt.Sprintf("CStorage %s (%d)%%Z", coqStr("alice"), now-10),
-			obs: c04Obs{ok: found && err == nil, t0: t0, t1: time.Now().UnixNano()}, label: "storage <- fresh record, column expired"})
-		res.eval("storage|column-expired", true)
-		// another user's record in alice's row
+		fresh := newSymTok(jws, env.signerKeyID(), false, "storage:fresh-record-column-expired")
+		wipe()
 		bobClaims := cloneClaims(prod.storage.claims)
 		bobClaims["sub"] = "bob"
-		run(env.tokServerSigned(bobClaims, "storage:record-of-bob-in-row-of-alice"), storage, "")
-		st.db.Exec("delete from expiring_signed_user_data where username=? and type=?", "alice", c04DataType)
+		bobs := env.tokServerSigned(bobClaims, "storage:record-of-bob-in-row-of-alice")
+		f14 := map[string]interface{}{"served_before_extension": found0}
+		for _, c := range consumers {
+			if c.kind != "storage" {
+				continue
+			}
+			o := run(expired, c, "column-extended")
+			f14["served_after_extension:"+c.name] = o.ok
+			saved := c04StorageCol
+			c04StorageCol = now - 10
+			run(fresh, c, "column-expired")
+			c04StorageCol = saved
+			run(bobs, c, "row-moved")
+			res.bump("storage-tamper:" + c.name)
+		}
+		res.Extra["f14"] = f14
 	}
 
 	// ---- 5. byte corruption of genuine artefacts
